@@ -1115,7 +1115,7 @@ func (p *Program) trivialGetter(fn *ssa.Function) bool {
 	if ok {
 		for _, ins := range fn.Blocks[0].Instrs {
 			switch t := ins.(type) {
-			case *ssa.Alloc, *ssa.FieldAddr, *ssa.Field, *ssa.Convert, *ssa.ChangeType, *ssa.Return:
+			case *ssa.Alloc, *ssa.FieldAddr, *ssa.Field, *ssa.Convert, *ssa.ChangeType, *ssa.Return, *ssa.MakeInterface, *ssa.ChangeInterface:
 			case *ssa.UnOp:
 				if t.Op != token.MUL {
 					ok = false
@@ -1138,7 +1138,32 @@ func (p *Program) trivialGetter(fn *ssa.Function) bool {
 						ok = false // may write through the pointer
 					}
 				}
+				if refs := t.Referrers(); refs == nil || len(*refs) == 0 {
+					ok = false // called for its effect (sort.Sort(x); return x), not for its value
+				}
 			default:
+				ok = false
+			}
+		}
+	}
+	if ok {
+		// the only cells are spilled parameters (a getter that fills a local through a pointer is not a pure projection)
+		for _, ins := range fn.Blocks[0].Instrs {
+			al, isAlloc := ins.(*ssa.Alloc)
+			if !isAlloc {
+				continue
+			}
+			spilled := false
+			if refs := al.Referrers(); refs != nil {
+				for _, r := range *refs {
+					if st, isSt := r.(*ssa.Store); isSt && st.Addr == ssa.Value(al) {
+						if _, isParam := st.Val.(*ssa.Parameter); isParam {
+							spilled = true
+						}
+					}
+				}
+			}
+			if !spilled {
 				ok = false
 			}
 		}
